@@ -210,6 +210,9 @@ func (x *Exec) runeToStr(r *T) VStr {
 		}
 		return x.strConst(string(rune(c)))
 	}
+	if lo, hi := term.Bounds(r); lo != nil && hi != nil && lo.Sign() >= 0 && hi.Int64() < 0x80 {
+		return VStr{term.I(1), term.Store(term.ConstArr(arrII, term.I(0)), term.I(0), r)}
+	}
 	ascii := term.And(term.Le(term.I(0), r), term.Lt(r, term.I(0x80)))
 	n := term.App(fRuneLen, r)
 	arr := term.Fresh("runestr", arrII)
